@@ -17,7 +17,7 @@ RULE = (
     "hessian_tensor_product/_vector_product (every argnum, keyword extras), make_hvp, make_ggnvp (default and custom g), "
     "value_and_grad, grad_and_aux, multi-argnum grad/jacobian/make_vjp/make_jvp, grad_named. Non-trivial = input or output rank >= 2, "
     "rank 0 on either side, or tuple/list/named argnum / non-default layout; distinct by (shapes, operator, layout)."
-    ' Later: functions handed over as bound methods / callable objects, negative argnum, container_args (tuple / list / dict / nested arguments, multigrad_dict), linalg_results (fields of numpy.linalg results read in six spellings), multigrad3 (three positions through one user primitive).'
+    ' Later: functions handed over as bound methods / callable objects, negative argnum, container_args (tuple / list / dict / nested arguments, multigrad_dict), linalg_results (fields of numpy.linalg results read in six spellings), multigrad3 (three positions through one user primitive); scalar functions that end in a full reduction (sum / mean) of the array-valued one; the aux of grad_and_aux under an enclosing grad / make_jvp.'
 )
 
 TOL = 1e-10
